@@ -121,6 +121,19 @@ func (p *c20) Gen(seed uint64, i int, tier string) (any, bool) {
 		caps = append(caps, "ENHANCEDSTATUSCODES")
 	}
 	sc.Server.Caps = caps
+	if i >= nEnum && r.Chance(1, 2) {
+		// the session is upgraded with STARTTLS and the second EHLO reply differs from the first:
+		// what counts is the reply in force when the command is refused
+		sc.Client.TLSPolicy = "opportunistic"
+		sc.Server.TLS = refsmtpd.TLSCfg{Cert: "valid"}
+		sc.Server.Caps = append(sc.Server.Caps, "STARTTLS")
+		sc.Server.UseCapsTLS = true
+		sc.Server.CapsTLS = []string{"8BITMIME"}
+		if !esc || r.Chance(1, 3) {
+			sc.Server.CapsTLS = append(sc.Server.CapsTLS, "ENHANCEDSTATUSCODES")
+		}
+		sc.Label += "/tls-caps-differ"
+	}
 	return sc, true
 }
 
@@ -321,6 +334,15 @@ func (p *c20) Exec(t *testing.T, scAny any) Outcome {
 		}
 		if se.IsTemp() != (r.Code/100 == 4) {
 			out.violate("C20:temp:"+site, "message %s refused at %s with %d: IsTemp() is %v", b.Spec.Token, site, r.Code, se.IsTemp())
+		}
+		// what counts is the EHLO reply in force when the refused command was sent
+		escAdvertised := escAdvertised
+		for i := len(run.Env.Srv.H.Events) - 1; i >= 0; i-- {
+			e := run.Env.Srv.H.Events[i]
+			if e.Seq < r.Seq && e.Kind == "cmd" && e.Conn == r.Conn && e.Verb != "" && e.Verb != "AUTHRESP" && e.Verb != "*" {
+				escAdvertised = strings.Contains(","+e.Ext+",", ",ENHANCEDSTATUSCODES,")
+				break
+			}
 		}
 		wantEnh := ""
 		if escAdvertised && r.Enh != "" {
